@@ -68,6 +68,12 @@ def gen_minmax(rng):
         elems += f"; {rng.choice(['0', '4', 'W : bonus(W)'])}"
     lit, assigns = _agg_lit(rng, fun, elems)
     outer = "person(P), " if grouped else ""
+    if grouped and rng.random() < 0.15:
+        # a second aggregate over another choice predicate, joined through the group variable: upper bounds are anti-monotone,
+        # so a domain computed from the DOMAIN of that predicate is no over-approximation
+        lines.append("{ kind(P,K) } :- avail(P,K).")
+        outer += rng.choice(["#sum { 1,K : kind(P,K) } <= 1, ", "#count { K : kind(P,K) } < 2, ", "1 <= #count { K : kind(P,K) }, ",
+                             "C = #count { K : kind(P,K) }, C < 2, "])
     if assigns:
         head = "res(P,X)" if grouped else "res(X)"
         lines.append(f"{head} :- {outer}{lit}.")
